@@ -77,8 +77,8 @@ c19_bytes_are(const void * ptr, size_t len, const uint8_t * bytes, size_t cap, c
 			if (aws_stream_eq(&r->s, E)) {
 				int same = (!r->failed && ptr == (const void *)r->result && len == r->len && len <= cap);
 
-				for (i = 0; i < cap && i < AWS_OUTMAX; i++)
-					if (i < len && bytes[i] != r->snap[i])
+				for (i = 0; i < cap && i <= AWS_ABSMAX; i++)
+					if (i < len && bytes[i] != r->snap.b[i])
 						same = 0;
 				if (same)
 					ok = 1;
@@ -87,7 +87,6 @@ c19_bytes_are(const void * ptr, size_t len, const uint8_t * bytes, size_t cap, c
 	}
 	return (ok);
 }
-#pragma CPROVER check pop
 
 /* ---- spec side of the lockstep ---- */
 static size_t c19_sp_k;		/* index of the next specification-side hash call */
@@ -154,8 +153,8 @@ c19_result_is(const char * p, const struct aws_stream * E)
 			if (aws_stream_eq(&r->s, E)) {
 				int same = (!r->failed && p == r->result);
 
-				for (i = 0; i < AWS_OUTMAX; i++)
-					if (i <= r->len && (uint8_t)p[i] != r->snap[i])
+				for (i = 0; i <= AWS_ABSMAX; i++)
+					if (i <= r->len && (uint8_t)p[i] != r->snap.b[i])
 						same = 0;
 				if (same)
 					ok = 1;
@@ -181,6 +180,8 @@ c19_same_text(const char * s, const struct aws_stream * E)
 		same = 0;
 	return (same);
 }
+
+#pragma CPROVER check pop
 
 /* ---- the real code ---- */
 /*
@@ -213,8 +214,31 @@ c19_hexify(const uint8_t * in, char * out, size_t len)
 	g_aws_nfix++;
 }
 #define hexify c19_hexify
+/*
+ * strdup: models/libc_string.c allocates strlen + 1 bytes, an object of symbolic size, which sends every access
+ * through CBMC's array theory (measured: 85 M clauses for the two strdup calls of a front end).  Same function
+ * with a block of fixed capacity (the strings duplicated here have 64 and 16 characters); success path only.
+ */
+static char *
+c19_strdup(const char * s)
+{
+	char * r = malloc(AWS_ARGMAX + 1);
+	size_t i;
+
+	__CPROVER_assume(r != NULL);
+	for (i = 0; i < AWS_ARGMAX; i++) {
+		r[i] = s[i];
+		if (s[i] == '\0')
+			return (r);
+	}
+	__CPROVER_assert(0, "MODEL-BOUND c19_strdup: string longer than AWS_ARGMAX");
+	__CPROVER_assume(0);
+	return (r);
+}
+#define strdup c19_strdup
 #include "aws/aws_sign.c"
 #undef hexify
+#undef strdup
 struct c19_ghost g_c19;
 
 /* ---- arbitrary inputs ---- */
